@@ -279,11 +279,11 @@ _TUPLE_SORTS = {}
 _PAIR_SORTS = {}
 
 
-def pair_sort(s1, s2):
-    k = (str(s1), str(s2))
+def pair_sort(*sorts):
+    k = tuple(str(s) for s in sorts)
     if k not in _PAIR_SORTS:
-        name = 'Pair_' + ''.join(c if c.isalnum() else '_' for c in k[0] + '_' + k[1])
-        _PAIR_SORTS[k] = z3.TupleSort(name, [s1, s2])
+        name = ('Pair_' if len(sorts) == 2 else 'Tuple%d_' % len(sorts)) + ''.join(c if c.isalnum() else '_' for c in '_'.join(k))
+        _PAIR_SORTS[k] = z3.TupleSort(name, list(sorts))
     return _PAIR_SORTS[k]
 
 
@@ -310,7 +310,9 @@ class Kind:
         if self.ty == 'seq':
             return list_sort(self.inner.sort())[0]
         if self.ty == 'pair':
-            return pair_sort(self.inner[0].sort(), self.inner[1].sort())[0]
+            return pair_sort(*[k.sort() for k in self.inner])[0]
+        if self.ty == 'custom':
+            return self.inner[0]
         return {'int': IntSort, 'bool': BoolSort, 'real': RealSort, 'bytes': BytesSort,
                 'str': StrSort, 'obj': IntSort, 'fn': IntSort, 'enum': IntSort, 'box': IntSort}[self.ty]
 
